@@ -4,6 +4,8 @@ import (
 	"encoding/json"
 	"fmt"
 	"reflect"
+	"runtime"
+	"runtime/debug"
 	"strings"
 
 	be "github.com/echoface/be_indexer"
@@ -48,6 +50,10 @@ func deepCopyAssign(a be.Assignments) be.Assignments {
 }
 
 func execHist(raw json.RawMessage) (res execResult, err error) {
+	// the process-wide pools (sync.Pool) are emptied by the garbage collector: keep it off during one history,
+	// so that what one retrieval puts back really is what the next one takes out
+	defer debug.SetGCPercent(debug.SetGCPercent(-1))
+	defer runtime.GOMAXPROCS(runtime.GOMAXPROCS(1)) // one P: sync.Pool keeps per-P caches
 	var h histCase
 	if err = json.Unmarshal(raw, &h); err != nil {
 		return
